@@ -4,7 +4,7 @@
    harness observed Bytes/Len/Cap/PC/Flags/GetBase/IsM16bit/IsX16bit/GetLabel of every name of the top
    emitter and of the one below, and at the end both listings, Finalize, the bytes and both listings
    again.  [check_case] replays the script on the model and returns the list of disagreements. *)
-From Coq Require Import ZArith NArith List Bool.
+From Coq Require Import ZArith NArith List Bool Uint63.
 From Lib Require Import ZList.
 From Model Require Import Emitter.
 Import ListNotations.
@@ -13,14 +13,6 @@ Local Open Scope Z_scope.
 (* the target the harness allocates: cap bytes, byte i = (fill + 7 i) mod 256 *)
 Definition tgt (cap fill : Z) : option (list Z) :=
   Some (map (fun i => (fill + 7 * i) mod 256) (ziota 0 cap)).
-
-(* byte lists are written as one hexadecimal literal: 0x1 followed by two digits per byte *)
-Fixpoint hx_go (fuel : nat) (z : Z) (acc : list Z) : list Z :=
-  match fuel with
-  | O => acc
-  | S f => if z <=? 1 then acc else hx_go f (z / 256) (z mod 256 :: acc)
-  end.
-Definition hx (z : Z) : list Z := hx_go (Z.to_nat (Z.log2 z)) z [].
 
 Record obs := mkObs {
   o_bytes : list Z; o_len : Z; o_cap : Z; o_pc : Z; o_flags : Z; o_base : Z;
@@ -163,3 +155,99 @@ Definition check_case (cb : bool) (c : case) : list (Z * Z) :=
 Definition bad_cases (cb : bool) (cs : list case) : list (Z * list (Z * Z)) :=
   filter (fun x => match snd x with [] => false | _ => true end)
          (map (fun c => (c_id c, check_case cb c)) cs).
+
+(* ------------------------------------------------------------------ wire format
+   Elaborating cases written as Gallina terms costs ~30 us and several KB of memory per node; a case is
+   therefore shipped as a flat list of primitive 63-bit integers (one token per scalar or byte) and
+   rebuilt here by a deserialiser that runs inside vm_compute.  A token stream that does not parse
+   counts as a disagreement (code 99).  checks/emitter.py holds the serialiser. *)
+Definition P (A : Type) : Type := list Z -> option (A * list Z).
+Definition pret {A} (a : A) : P A := fun s => Some (a, s).
+Definition pfail {A} : P A := fun _ => None.
+Definition pbind {A B} (p : P A) (f : A -> P B) : P B :=
+  fun s => match p s with Some (a, s') => f a s' | None => None end.
+Notation "x <- p ;; q" := (pbind p (fun x => q)) (at level 61, p at next level, right associativity).
+Definition ptok : P Z := fun s => match s with t :: r => Some (t, r) | [] => None end.
+Fixpoint pmany {A} (p : P A) (n : nat) : P (list A) :=
+  match n with
+  | O => pret []
+  | S m => x <- p ;; xs <- pmany p m ;; pret (x :: xs)
+  end.
+Definition plist {A} (p : P A) : P (list A) := n <- ptok ;; pmany p (Z.to_nat n).
+Definition pbool : P bool := t <- ptok ;; pret (negb (t =? 0)).
+Definition pN : P N := t <- ptok ;; pret (Z.to_N t).
+Definition popt : P (option Z) := t <- ptok ;; pret (if t =? 0 then None else Some (t - 1)).
+Definition pbytes : P (list Z) := plist ptok.
+Definition ptarget : P (option (list Z)) :=
+  t <- ptok ;; if t =? 0 then pret None else (cap <- ptok ;; fill <- ptok ;; pret (tgt cap fill)).
+Definition pikind : P ikind :=
+  t <- ptok ;;
+  if t =? 0 then pret E1 else if t =? 1 then pret E2 else if t =? 2 then pret E2L else
+  if t =? 3 then pret E3 else if t =? 4 then pret E3L else if t =? 5 then pret E4 else pfail.
+Definition pkind : P kind :=
+  t <- ptok ;;
+  if t =? 0 then pret KIns1 else if t =? 1 then pret KIns2 else if t =? 2 then pret KIns2L else
+  if t =? 3 then pret KIns3 else if t =? 4 then pret KIns3L else if t =? 5 then pret KIns4 else
+  if t =? 6 then pret KBase else if t =? 7 then pret KDB else if t =? 8 then pret KComment else
+  if t =? 9 then pret KLabel else pfail.
+Definition ptrack : P track :=
+  t <- ptok ;;
+  if t =? 0 then pret TNone else if t =? 1 then (c <- ptok ;; pret (TRep c))
+  else if t =? 2 then (c <- ptok ;; pret (TSep c)) else pfail.
+Definition pguard : P guard :=
+  t <- ptok ;;
+  if t =? 0 then pret GNone else if t =? 1 then pret GM8 else if t =? 2 then pret GM16 else
+  if t =? 3 then pret GX8 else if t =? 4 then pret GX16 else pfail.
+Definition pop : P op :=
+  t <- ptok ;;
+  if t =? 0 then (a <- ptok ;; pret (OSetBase a))
+  else if t =? 1 then (c <- ptok ;; pret (OAssumeREP c))
+  else if t =? 2 then (c <- ptok ;; pret (OAssumeSEP c))
+  else if t =? 3 then (k <- pikind ;; d <- pbytes ;; l <- pN ;; tr <- ptrack ;; g <- pguard ;; pret (OIns k d l tr g))
+  else if t =? 4 then (d <- pbytes ;; pret (OEmitBytes d))
+  else if t =? 5 then (i <- pN ;; pret (OComment i))
+  else if t =? 6 then (l <- pN ;; pret (OLabel l))
+  else pfail.
+Definition pstep : P step :=
+  t <- ptok ;;
+  if t =? 0 then (o <- pop ;; pret (SOp o))
+  else if t =? 1 then (tg <- ptarget ;; pret (SClone tg))
+  else if t =? 2 then pret SAppend
+  else if t =? 3 then pret SFinalize
+  else pfail.
+Definition pobs : P obs :=
+  b <- pbytes ;; ln <- ptok ;; cp <- ptok ;; pc <- ptok ;; fl <- ptok ;; ba <- ptok ;;
+  m <- pbool ;; x <- pbool ;; ls <- plist popt ;; pret (mkObs b ln cp pc fl ba m x ls).
+Definition psobs : P sobs :=
+  t <- ptok ;;
+  if t =? 0 then pret SNone else if t =? 1 then pret SSame
+  else if t =? 2 then (o <- pobs ;; pret (SFull o)) else pfail.
+Definition psrec : P srec :=
+  st <- pstep ;; pn <- pbool ;; kp <- ptok ;; o <- pobs ;; s2 <- psobs ;; pret (mkS st pn kp o s2).
+Definition prline : P rline :=
+  k <- pkind ;; a <- ptok ;; b <- pbytes ;; l <- pN ;; w <- pbool ;; pret (mkR k a b l w).
+Definition prender : P (list rline * bool) := ls <- plist prline ;; pn <- pbool ;; pret (ls, pn).
+Definition pfres : P fres :=
+  t <- ptok ;;
+  if t =? 0 then pret FOk else if t =? 1 then (l <- pN ;; pret (FUnresolved l))
+  else if t =? 2 then (f <- ptok ;; to <- ptok ;; pret (FTooFar f to))
+  else if t =? 3 then pret FPanic else pfail.
+Definition pfinal : P final :=
+  h1 <- prender ;; t1 <- prender ;; r <- pfres ;; b <- pbytes ;; h2 <- prender ;; t2 <- prender ;;
+  pret (mkF h1 t1 r b h2 t2).
+Definition pcase : P case :=
+  i <- ptok ;; g <- pbool ;; tg <- ptarget ;; nl <- pN ;; ss <- plist psrec ;; f <- pfinal ;;
+  pret (mkC i g tg nl ss f).
+
+Definition decode_case (ts : list int) : option case :=
+  match pcase (map Uint63.to_Z ts) with
+  | Some (c, []) => Some c
+  | _ => None
+  end.
+
+Definition bad_encoded (cb : bool) (css : list (list int)) : list (Z * list (Z * Z)) :=
+  filter (fun x => match snd x with [] => false | _ => true end)
+         (map (fun ts => match decode_case ts with
+                         | Some c => (c_id c, check_case cb c)
+                         | None => (match ts with t :: _ => Uint63.to_Z t | [] => -1 end, [(-1, 99)])
+                         end) css).
